@@ -227,6 +227,18 @@ def wrapper (attempt : Nat → Attempt F) (maxReps : Nat) (bounds : List (F × F
     .ok { x := x', f := func x', reps := r.2, reevaluated := true }
   else .ok { x := r.1.x, f := r.1.f, reps := r.2, reevaluated := false }
 
+/-- `ScipyMinimizerImpl.minimize`, method COBYLA: the bounds are handed to scipy as inequality
+constraints `g(x) ≥ 0`; for parameter `i` with bounds `(lb, ub)`: `x[i] - lb` and `ub - x[i]`, each
+closure bound to *its own* `i`, `lb`, `ub`.  `none` = `IndexError` (x shorter than the bounds). -/
+def cobylaConstraintsFrom [Sub F] (i : Nat) : List (F × F) → List (List F → Option F)
+  | [] => []
+  | b :: bs =>
+    (fun x => (x[i]?).map (fun v => v - b.1)) :: (fun x => (x[i]?).map (fun v => b.2 - v)) ::
+      cobylaConstraintsFrom (i + 1) bs
+
+def cobylaConstraints [Sub F] (bounds : List (F × F)) : List (List F → Option F) :=
+  cobylaConstraintsFrom 0 bounds
+
 /-- `LLHRatio.maximize`: the objective handed to the minimiser is `-llh`, the reported maximum is
 `-fmin`. -/
 def maximize [Neg F] (attempt : Nat → Attempt F) (maxReps : Nat) (bounds : List (F × F))
